@@ -573,10 +573,27 @@ pub fn install_quiet_panic_hook() {
         } else {
             "<non-string panic>".to_owned()
         };
-        let loc = info
+        let mut loc = info
             .location()
             .map(|l| format!("{}:{}", l.file(), l.line()))
             .unwrap_or_default();
+        // a panic raised inside the standard library (slice indexing, `encode_utf8`, arithmetic helpers ...) belongs to whoever
+        // called it: the innermost frame that is neither std nor the panic machinery decides
+        if loc.contains("/rustc/") || loc.contains("/rustlib/") {
+            let bt = std::backtrace::Backtrace::force_capture().to_string();
+            for line in bt.lines() {
+                let l = line.trim();
+                let Some((_, sym)) = l.split_once(": ") else { continue };
+                let sym = sym.trim_start_matches('<');
+                if sym.starts_with("nucleo_matcher::") || sym.starts_with("nucleo::") {
+                    loc = format!("/repo/ (panic raised at {loc} on behalf of {})", sym.split('<').next().unwrap_or(sym));
+                    break;
+                }
+                if sym.starts_with("vmon::") && !sym.contains("panic_hook") {
+                    break;
+                }
+            }
+        }
         LAST_PANIC.with(|p| *p.borrow_mut() = format!("{msg} @ {loc}"));
     }));
 }
